@@ -58,6 +58,7 @@ def units(tier):
     quick = tier == "quick"
     u = [{"name": f"cc-{n}", "timeout": 1500 if quick else 2400} for n in CLASSIC]
     u += [{"name": f"mj-{n}", "timeout": 1800 if quick else 3000} for n in (MUJOCO_QUICK if quick else MUJOCO_ALL)]
+    u += [{"name": "mj-flag-shapes", "timeout": 1800}]
     if not quick:
         u += [{"name": f"g1-{n}", "timeout": 3400} for n in G1]
     return u
@@ -1105,7 +1106,47 @@ def u_g1(ctx, base):
         ctx.require(m, 1)
 
 
+def u_mj_shapes(ctx):
+    """Every combination of the boolean observation / termination flags of every MuJoCo environment (up to 64 per
+    environment, sampled): the abstract shape and dtype of the reset observation (jax.eval_shape of the real functions: no
+    MJX compilation) against the declared space. The observation size is computed at construction from the flags."""
+    import inspect
+    import itertools
+
+    import jax
+    from jax import numpy as jnp
+    from jax import random as jr
+
+    import lerax.env.mujoco as M
+
+    for base in MUJOCO_ALL:
+        cls = getattr(M, base)
+        flags = [n for n, p_ in inspect.signature(cls.__init__).parameters.items() if isinstance(p_.default, bool)]
+        combos = list(itertools.product([True, False], repeat=len(flags)))
+        cap_ = ctx.n(8, 32)
+        if len(combos) > cap_:
+            combos = [combos[0], combos[-1]] + [combos[int(i)] for i in ctx.rng.choice(len(combos), cap_ - 2, replace=False)]
+        for combo in combos:
+            kw = dict(zip(flags, combo))
+            try:
+                env = cls(**kw)
+                obs = jax.eval_shape(lambda k: env.observation(env.initial(key=k), key=k), jr.key(0))
+            except Exception as e:  # noqa: BLE001
+                ctx.violation(f"{base.lower()}-construction-raises-inside-documented-domain", {"kw": kw, "error": repr(e)[-300:]})
+                continue
+            nontriv = not all(combo)
+            ctx.case({"base": base, "kw": kw}, nontrivial=nontriv, cls=f"{base}/flag-shapes")
+            ctx.monitor("flag_combinations_shape_checked")
+            sp = env.observation_space
+            if tuple(obs.shape) != tuple(sp.shape) or not jnp.issubdtype(obs.dtype, jnp.floating):
+                ctx.violation(f"{base.lower()}-obs-not-of-declared-shape-or-dtype",
+                              {"kw": kw, "stream": "reset", "emitted": [list(obs.shape), str(obs.dtype)], "declared_shape": list(sp.shape)})
+    ctx.require("flag_combinations_shape_checked", 30)
+
+
 def run_unit(name, ctx):
+    if name == "mj-flag-shapes":
+        return u_mj_shapes(ctx)
     kind, base = name.split("-", 1)
     {"cc": u_classic, "mj": u_mujoco, "g1": u_g1}[kind](ctx, base)
 
